@@ -96,7 +96,9 @@ Fields(s) == IF Tendermint THEN FieldsTM(s) ELSE FieldsJson(s)
 Requested(s) == LET f == Fields(s) IN AR!RequestedBlockOf(f[1], f[2])
 
 KindMethod(k) == IF k = "call" THEN "eth_call" ELSE "other"
-CUOf(k) == CASE k = "bal" -> 20 [] k = "call" -> 20 [] k = "logs" -> 80 [] k = "num" -> 10 [] k = "none" -> 10
+\* compute units of the checked-in specs (ETH1 JSON-RPC; LAV1 tendermint block / status / genesis are all 10)
+CUOf(k) == IF Tendermint THEN 10
+           ELSE CASE k = "bal" -> 20 [] k = "call" -> 20 [] k = "logs" -> 80 [] k = "num" -> 10 [] k = "none" -> 10
 
 RECURSIVE SumCU(_, _)
 SumCU(s, i) == IF i > Len(s) THEN 0 ELSE CUOf(s[i].k) + SumCU(s, i + 1)
